@@ -1,9 +1,10 @@
 (* C10 — Rodrigues conversions produce the stated rotation and invert each other.
    Only statements here; each is closed by `exact <lemma>` from proofs/P_rodrigues*.v. *)
 From Coq Require Import ZArith Reals Lra List Bool.
+From Coquelicot Require Import Coquelicot.
 From PW Require Import Num NumR Vec Mat Result.
 From PW.model Require Import M_rodrigues.
-From PW.proofs Require Import P_rodrigues P_rodrigues_inv P_rodrigues_jac P_rodrigues_rt P_rodrigues_half.
+From PW.proofs Require Import P_rodrigues P_rodrigues_inv P_rodrigues_jac P_rodrigues_rt P_rodrigues_half P_rodrigues_deriv P_rodrigues_tiny.
 Import ListNotations.
 Local Open Scope R_scope.
 
@@ -22,7 +23,7 @@ Theorem C10_fwd_fixes_vector : forall r : vec3 R, m3apply ROps (rodrigues_fwd RO
 Proof. exact fwd_fixes_vector. Qed.
 
 (* turns vectors perpendicular to the axis by the angle |r|, right-handed: M v = cos|r| v + sin|r| (k x v).
-   Restricted to eps <= |r|: below eps = 2^-52 the code returns the identity (see the _partial below). *)
+   Restricted to eps <= |r|: below eps = 2^-52 the code returns the identity (see C10_fwd_tiny_* below). *)
 Theorem C10_fwd_turns_perp : forall r v : vec3 R,
   rod_eps ROps <= vnorm ROps r -> vdot ROps v r = 0 ->
   m3apply ROps (rodrigues_fwd ROps r) v =
@@ -33,11 +34,16 @@ Proof. exact fwd_turns_perp. Qed.
 Theorem C10_fwd_zero_is_identity : rodrigues_fwd ROps (V3 0 0 0) = I3 ROps.
 Proof. exact fwd_zero_is_identity. Qed.
 
-(* numeric clause: for 0 < |r| < eps the code returns exactly I (the `< eps` shortcut). Proved: what is returned.
-   Missing: a bound on the distance to the exact rotation by |r| (it is <= |r| |v| < 2.3e-16 |v|); sampled by the oracle. *)
-Theorem C10_fwd_tiny_is_identity_partial : forall r : vec3 R,
+(* the `< eps` shortcut (eps = 2^-52): for |r| < eps the code returns exactly I, and that is within |r| |v| (< 2.3e-16 |v|)
+   of the exact rotation by |r| about r/|r| applied to any vector v *)
+Theorem C10_fwd_tiny_is_identity : forall r : vec3 R,
   vnorm ROps r < rod_eps ROps -> rodrigues_fwd ROps r = I3 ROps.
 Proof. exact fwd_tiny_is_identity. Qed.
+Theorem C10_fwd_tiny_error_bound : forall r v : vec3 R, 0 < vnorm ROps r < rod_eps ROps ->
+  vnorm ROps (vsub ROps
+     (m3apply ROps (rod_matrix ROps (cos (vnorm ROps r)) (sin (vnorm ROps r)) (rod_axis ROps r)) v)
+     (m3apply ROps (rodrigues_fwd ROps r) v)) <= vnorm ROps r * vnorm ROps v.
+Proof. exact fwd_tiny_error_bound. Qed.
 
 (* ---- inverse map ------------------------------------------------------------------------------------
    `proj` is numpy's svd projection u @ v (LAPACK, not modelled); proj_ok: it returns its input when the input is
@@ -67,6 +73,31 @@ Proof. intros proj m v. exact (inv_norm_le_pi (proj m) v). Qed.
    up to 1e-5 (error <= 2.5e-5 claimed by the property), the half-turn branch recovers the axis from the diagonal. *)
 
 (* ---- Jacobians -------------------------------------------------------------------------------------- *)
+(* "the Jacobian it can return equals the derivative of that map": for every rotation vector with |r| > eps, every
+   coordinate j and every matrix entry (a, b) -- all 27 -- row j of the returned (3,9) Jacobian, entry (a, b), is the
+   derivative (Coquelicot is_derive) of t |-> rodrigues_fwd (r + t e_j) [a, b] at t = 0.  The map differentiated is the
+   code's own map including its eps branch (|r| > eps keeps a neighbourhood inside the generic branch). *)
+Theorem C10_fwd_jacobian_is_derivative : forall (r : vec3 R) (j a b : nat),
+  (j < 3)%nat -> (a < 3)%nat -> (b < 3)%nat -> rod_eps ROps < vnorm ROps r ->
+  exists Jj, nth_error (rodrigues_fwd_jac ROps r) j = Some Jj /\
+    is_derive (fun t => m3get (rodrigues_fwd ROps (vadd ROps r (vscale ROps t (vbasis ROps j)))) a b) 0 (m3get Jj a b).
+Proof. exact fwd_jacobian_is_derivative. Qed.
+(* the same for the Rodrigues formula c I + (1-c) k k^T + s [k]x itself at EVERY r <> 0 (also 0 < |r| <= eps) and in every
+   direction e: the directional derivative is the e-combination of the three Jacobian rows *)
+Theorem C10_rodrigues_formula_derivative : forall (r e : vec3 R) (a b : nat),
+  (a < 3)%nat -> (b < 3)%nat -> 0 < vnorm2 ROps r ->
+  let R_of v := rod_matrix ROps (cos (vnorm ROps v)) (sin (vnorm ROps v)) (rod_axis ROps v) in
+  let J j := rod_jac_row ROps (cos (vnorm ROps r)) (sin (vnorm ROps r)) (1 / vnorm ROps r) (rod_axis ROps r) j in
+  is_derive (fun t => m3get (R_of (vadd ROps r (vscale ROps t e))) a b) 0
+    (vx e * m3get (J 0%nat) a b + vy e * m3get (J 1%nat) a b + vz e * m3get (J 2%nat) a b).
+Proof. exact fwd_formula_derive. Qed.
+(* |r| < eps: the code returns the generators d[k]x/dk_j (the derivative of the exact map at r = 0).  Proved: what is
+   returned.  Missing: that this table is the derivative at 0 of the exact rotation map (limits of sin t / t), and the
+   O(eps) deviation for 0 < |r| < eps; both sampled by the finite-difference oracle. *)
+Theorem C10_fwd_jacobian_tiny_partial : forall r : vec3 R, vnorm ROps r < rod_eps ROps ->
+  rodrigues_fwd_jac ROps r = [rod_dskew ROps 0; rod_dskew ROps 1; rod_dskew ROps 2].
+Proof. exact fwd_jac_small. Qed.
+
 (* inverse Jacobian (9,3) composed with the forward Jacobian (3,9) is the 3x3 identity: for every proper rotation
    outside the snapping region, at the vector the inverse returns ... *)
 Theorem C10_jacobians_compose_to_identity : forall proj (m : mat3 R), proj_ok proj ->
@@ -146,7 +177,8 @@ Proof.
 Qed.
 
 Definition C10_all := (C10_fwd_proper, C10_fwd_fixes_axis, C10_fwd_fixes_vector, C10_fwd_turns_perp,
-  C10_fwd_zero_is_identity, C10_fwd_tiny_is_identity_partial, C10_inv_of_fwd, C10_fwd_of_inv_generic, C10_inv_norm_le_pi, C10_half_turn_roundtrip,
+  C10_fwd_zero_is_identity, C10_fwd_tiny_is_identity, C10_fwd_tiny_error_bound, C10_inv_of_fwd, C10_fwd_of_inv_generic, C10_inv_norm_le_pi, C10_half_turn_roundtrip,
+  C10_fwd_jacobian_is_derivative, C10_rodrigues_formula_derivative, C10_fwd_jacobian_tiny_partial,
   C10_jacobians_compose_to_identity, C10_jacobians_compose_of_vector, C10_jacobians_compose_at_identity,
   C10_jacobians_compose_halfturn_refuted, C10_cv2_dispatch, C10_cv2_rejects_other_shapes,
   C10_r2m_accepts_three, C10_r2m_rejects_other_sizes, C10_m2r_accepts_3x3, C10_m2r_rejects_other_shapes).
